@@ -298,7 +298,8 @@ class Result:
                 continue
             seen.add(k["sig"])
             print(f"KNOWN-FINDING: property={self.pid} {k['sig']} {k['text']}")
-        if missing:
+        # a violation is reported even if it cut runs short and left other rules unexercised
+        if missing and not real:
             log(f"[{self.pid}] vacuous: rules never exercised: {missing}")
             return 2
         if real:
